@@ -15,6 +15,7 @@ ALPHA = ["abc", "ABC", "  abc", "abc  ", "\tabc\t", "", "   ", "abc1", "1abc", "
          # Unicode White_Space (what "trimming" and "blank" mean for a Rust str): ideographic space, no-break space
          "\u3000abc", "abc\u00a0", "\u3000"]
 PATTERNS = [r"^[a-z]+$", r"[a-z]+", r"^abc", r"abc$", r"^\s", r"\s$", r"^[a-z]{3}$", r"^(abc|x)$", r"\d", r"^.*$", r"^$", r"c d",
+            " ",      # a regex made of white space only is still a regex: it matches the lines with an inner blank (lines are trimmed first)
             # legal patterns that compile to a large automaton (bounded repetition over Unicode classes)
             ]
 # legal patterns that compile to a large automaton (bounded repetition over Unicode classes); blockwatch compiles the pattern
